@@ -319,5 +319,72 @@ class JobSequences(Part):
         return res
 
 
+class OtherFeatures(Part):
+    name = "mapping_independent_of_the_other_features"
+    desc = ("the images of fixed probe addresses under every subset of the other features (secrets, words, AS numbers, log "
+            "level irrelevant) and salts beginning with each printable ASCII character, a blank and non-ASCII letters: "
+            "always what a bare address anonymizer gives for that salt, host bits and networks; undo restores")
+
+    PROBES4 = ["11.22.33.44", "11.22.33.45", "200.7.6.5", "10.1.2.3"]
+    PROBES6 = ["2001:db8:1:2::10", "2001:db8:1:2::11", "fe80::a:b"]
+
+    def __init__(self, tier, seed):
+        self.tier, self.seed = tier, seed
+
+    def cases(self):
+        firsts = [chr(c) for c in range(32, 127)] + ["é", "ß", "中", "İ"]
+        return [{"first": firsts[i:i + 10]} for i in range(0, len(firsts), 10)]
+
+    def run(self, case):
+        import io
+        import ipaddress
+
+        from netconan import ip_anonymization
+        from netconan.anonymize_files import FileAnonymizer
+
+        res = Res()
+        text = "".join("peer %s x\n" % p for p in self.PROBES4 + self.PROBES6) + 'set system y secret "$9$abc!defghij"\nhostname seattle-core\nrouter bgp 65001\n'
+        for c in case["first"]:
+            for tail in ("lab-2024", "", "#"):
+                salt = c + tail
+                for B in (0, 8):
+                    with seams.capture_logs():
+                        a4 = ip_anonymization.IpAnonymizer(salt, preserve_suffix=B)
+                        a6 = ip_anonymization.IpV6Anonymizer(salt, preserve_suffix=B)
+                    want = [str(ipaddress.IPv4Address(a4.anonymize(int(ipaddress.IPv4Address(p))))) for p in self.PROBES4]
+                    want += [str(ipaddress.IPv6Address(a6.anonymize(int(ipaddress.IPv6Address(p))))) for p in self.PROBES6]
+                    for pwd, word, asn in itertools.product([False, True], repeat=3):
+                        if "only" in case and case["only"] != [salt, B, pwd, word, asn]:
+                            continue
+                        res.evals += 1
+                        with seams.capture_logs():
+                            fa = FileAnonymizer(anon_pwd=pwd, anon_ip=True, salt=salt, sensitive_words=["seattle"] if word else None,
+                                                as_numbers=["65001"] if asn else None, preserve_suffix_v4=B, preserve_suffix_v6=B)
+                            out = io.StringIO()
+                            fa.anonymize_io(io.StringIO(text), out)
+                            un = FileAnonymizer(anon_pwd=False, anon_ip=False, undo_ip_anon=True, salt=salt, preserve_suffix_v4=B, preserve_suffix_v6=B)
+                            back = io.StringIO()
+                            un.anonymize_io(io.StringIO(out.getvalue()), back)
+                        seams.restore_globals()
+                        got = [ln.split()[1] for ln in out.getvalue().split("\n")[:7]]
+                        res.nt((salt, B, pwd, word, asn))
+                        res.out(tuple(got) == tuple(want))
+                        rc = {"first": [c], "only": [salt, B, pwd, word, asn]}
+                        if got != want:
+                            k = [i for i in range(7) if got[i] != want[i]][0]
+                            res.violation("image-depends-on-the-other-features",
+                                          "salt %r host bits %d, secrets %s words %s AS %s: %s is written as %s, the address anonymizer for that salt gives %s" % (
+                                              salt, B, pwd, word, asn, (self.PROBES4 + self.PROBES6)[k], got[k], want[k]), rc)
+                            continue
+                        restored = [ln.split()[1] for ln in back.getvalue().split("\n")[:7]]
+                        if restored != self.PROBES4 + self.PROBES6:
+                            res.violation("undo-with-the-same-salt-does-not-restore",
+                                          "salt %r host bits %d, secrets %s words %s AS %s: %r restored as %r" % (
+                                              salt, B, pwd, word, asn, self.PROBES4 + self.PROBES6, restored), rc)
+        if "only" not in case:
+            res.samples.append({"first_characters": case["first"]})
+        return res
+
+
 def parts(tier, seed):
-    return [GraphPart(tier, seed), FilesPart(tier, seed), LongHistory(tier, seed), JobSequences(tier, seed)]
+    return [GraphPart(tier, seed), FilesPart(tier, seed), LongHistory(tier, seed), JobSequences(tier, seed), OtherFeatures(tier, seed)]
